@@ -11,6 +11,7 @@ import FeedVerif.Model.MixinDriver
 import FeedVerif.Model.ApiDriver
 import FeedVerif.Model.JsonDriver
 import FeedVerif.Model.StreamDriver
+import FeedVerif.Model.InitDriver
 /-!
 Model driver: one operation per input line `<model> <op> <fields…>`, one canonical output line per
 operation.  Run with `lake env lean --run Main.lean`.
@@ -27,6 +28,7 @@ def stepLine (st : DState) (line : String) : DState × String :=
   match (line.trimAscii.toString.splitOn " ").filter (· ≠ "") with
   | "dict" :: rest => let (s, o) := Dict.driverStep st.dict rest; ({ st with dict := s }, o)
   | "uri" :: rest => (st, Uri.driverStep rest)
+  | "init" :: rest => (st, Init.driverStep rest)
   | "stream" :: rest => (st, Stream.driverStep rest)
   | "json" :: rest => (st, Json.driverStep rest)
   | "api" :: rest => (st, Api.driverStep rest)
